@@ -186,8 +186,10 @@ def run(tier, report):
     core.import_repo()
     vectors = []
     for cfg, label in (("DataFormat_single.cfg", "every property x every format x every spelling / code point / malformed value"),
-                       ("DataFormat_pairs.cfg", "all pairs of settings that can contradict each other")):
-        result = core.tlc("MCDataFormat", cfg)
+                       ("DataFormat_pairs.cfg", "all pairs of settings that can contradict each other")) + (
+            () if tier == "quick" else (("DataFormat_triples.cfg", "all triples of settings that can contradict each other"),
+                                        ("DataFormat_allpairs.cfg", "all pairs of all settings"))):
+        result = core.tlc("MCDataFormat", cfg, timeout=7000)
         core.require_coverage(result, ["SetProperty", "Validate"], cfg)
         report.add_tlc("DataFormat %s: %s" % (cfg, label), result)
         vectors += result.by_tag("VEC")
